@@ -2,6 +2,9 @@
 
 from __future__ import annotations
 
+import contextlib
+import logging
+
 import numpy as np
 from hypothesis import strategies as st
 
@@ -38,7 +41,20 @@ RULE = (
     "change), then data (item assignment) and / or model (ktensor.update) are edited in place and the same objects are "
     "evaluated again (objective and gradients of the operands as they stand).  large cells: a few problems per run "
     "with 60000 cells, 1e4..3e4 non-zero data entries (sparse or dense), mostly-missing weights; estimate on 1e4..3e4 "
-    "samples (block edges 10000 / 16384 +-1), expanded deterministically from a seed, same bodies.  Non-trivial: N>=3, R>=2 and non-constant data (tensor cells); data value not 0 and "
+    "samples (block edges 10000 / 16384 +-1), expanded deterministically from a seed, same bodies.  Round 4 - the same "
+    "request as another caller presents it: sample subscripts in int8 / uint8 / int16 / uint16 / int32 / uint32 / uint64 (always "
+    "a dtype that holds every subscript), C / Fortran ordered, a strided view or read-only; sample values in float32 / int16 / "
+    "uint64, sample weights in float32 / int32 / uint8 / uint16, correction range in int32 / uint8 / int16 / uint64; models with "
+    "one long mode (length x rank above 127 / 255 / 32767 / 65535 while every subscript fits the narrow dtype; rows near the "
+    "end sampled; also every entry of such a tensor as the sample), judged by the per-sample definition and by the answer "
+    "to the same request in the plain presentation (int64, float64, C order); evaluate: weights in float32 / int16 / int32 / "
+    "uint16 / uint64, read-only or strided; dense / sparse data in float32, int8 / int16 / uint64; sparse data built from "
+    "int32 / uint8 / int16 / uint16 / uint64 subscripts (large cells: the linear index does not fit the narrow dtype); mttkrp(s): "
+    "factor lists of C-ordered / strided / read-only arrays, the mode as a NumPy integer; handles: data in float32 / int8 / "
+    "int16 / uint64, strided / read-only / F-ordered arguments.  The root logger at DEBUG (NullHandler) must not change any "
+    "answer (estimate: bit for bit against the quiet call).  A rejected request (no handles, missing loss parameter, data "
+    "outside the loss's domain, MTTKRP factor of the wrong size) between two identical evaluations leaves model, data, weights "
+    "and arguments bit for bit and the second evaluation equals the first.  Non-trivial: N>=3, R>=2 and non-constant data (tensor cells); data value not 0 and "
     "model value not 0 (handle cells)."
 )
 ASSUMPTIONS = [
@@ -58,7 +74,14 @@ ASSUMPTIONS = [
     "Huber is checked at least 2% of the threshold away from |x-m| = threshold (not differentiable there)",
     "beta loss: b outside [-0.05,0.05] and [0.95,1.05] (the loss divides by b and b-1)",
     "an integer dtype is used only when it holds every data value exactly; the derivative property is judged on the "
-    "float64 image and 'independent of data dtype' is a clause of its own (16 eps x term scale); float32 left out",
+    "float64 image and 'independent of data dtype' is a clause of its own (16 eps x term scale)",
+    "single precision (float32 data / sample values / weights): the request is the rounded array (its float64 image is the "
+    "reference) and every tolerance is multiplied by eps32/eps - a single-precision bound; Huber data is never held in float32 "
+    "(kink margin).  ktensor rejects float32 factor matrices, so float32 models do not exist; C-ordered factors arise through "
+    "normalize(k) (state 'absorbed')",
+    "rejections asserted (ctx.raises) are those pyttb documents: evaluate / estimate without any handle, setup without the "
+    "parameter of Huber / negative binomial / beta, setup with data outside what it documents to check (non-binary, non-integer, "
+    "negative), mttkrp with a factor matrix whose row count differs from the mode length",
     "extreme magnitudes are generated so that no product of factor entries is a subnormal number or depends on the "
     "order of the factors (one tiny magnitude class per model; power-of-two column scalings balanced per component; "
     "never a huge entry next to tiny ones); a model with entries below 1e-150 is not sent through normalize() (the "
@@ -69,6 +92,47 @@ ASSUMPTIONS = [
 ]
 
 EPS = H.EPS
+
+
+@contextlib.contextmanager
+def _env(kind):
+    """process environment of a call: None = as the harness runs it (logging silenced); 'debug-logging' = the root logger
+    at DEBUG with a NullHandler and logging enabled (restored afterwards).  What is computed must not depend on it."""
+    if kind != "debug-logging":
+        yield
+        return
+    root = logging.getLogger()
+    old, old_disable, old_handlers = root.level, root.manager.disable, root.handlers[:]
+    root.handlers[:] = [logging.NullHandler()]  # (records are produced and handled, nothing is printed)
+    root.setLevel(logging.DEBUG)
+    logging.disable(logging.NOTSET)
+    try:
+        yield
+    finally:
+        logging.disable(old_disable)
+        root.setLevel(old)
+        root.handlers[:] = old_handlers
+
+
+def _sample_arrays(case, subs, vals, wts, crng):
+    """the sample as the caller presents it (dtypes / memory layouts drawn in the case) and the float64 images of the
+    values and weights it then denotes; slack = 1, or eps32/eps when a single-precision array takes part"""
+    a_subs = H.present_array(subs.copy(), case.get("slayout"))
+    a_vals, vals = H.as_presented(vals, case.get("vdtype") if case["loss"] != "huber" else None)
+    swd = case.get("swdtype")
+    if swd in (None, "float64"):
+        a_wts = wts.copy()
+    else:
+        a_wts, wts = H.as_presented(wts, swd)
+    a_vals = H.present_array(a_vals, case.get("vlayout"))
+    a_wts = H.present_array(a_wts, case.get("vlayout"))
+    a_crng = None if crng is None else H.present_array(crng.astype(case.get("cdtype") or "int64"), case.get("clayout"))
+    slack = H.SLACK32 if np.float32 in (a_vals.dtype, a_wts.dtype) else 1.0
+    return a_subs, a_vals, a_wts, a_crng, vals, wts, slack
+
+
+def _layout_label(a):
+    return ("ro-" if not a.flags.writeable else "") + ("C" if a.flags["C_CONTIGUOUS"] else ("F" if a.flags["F_CONTIGUOUS"] else "strided"))
 
 
 def _nb_case_has_x_not_1(case):
@@ -122,6 +186,8 @@ PREDICATES = {
     "nb_some_data_not_1": _nb_case_has_x_not_1,
     "ktensor_nonunit_weights": lambda case: case.get("ukind") == "ktensor" and any(w != 1 for w in case["uweights"]),
     "no_samples": lambda case: len(case.get("subs", [0])) == 0,
+    "uint64_sparse_subs_then_item_assignment": lambda case: case.get("spsubs") == "uint64" and case.get("holder") == "sparse"
+    and case.get("edit") in ("data", "both"),
 }
 
 
@@ -144,11 +210,12 @@ def _handle_strategy(name):
             ms = draw(st.lists(H.model_value(name), min_size=n, max_size=n))
         form = draw(st.sampled_from(["vector", "vector", "matrix", "scalar"]))
         # integer-valued data is naturally held in an integer (binary data also in a boolean) array
-        xdtype = draw(st.sampled_from(H.data_dtypes(name)))
+        xdtype = draw(st.sampled_from(H.data_dtypes(name) + (["float32", "float32", "int16", "uint64", "int8"] if name != "huber" else [])))
+        xlayout = draw(st.sampled_from([None, None, None, "strided", "readonly", "F"]))
         if name == "negative_binomial" and p == int(p) and draw(st.booleans()):
             p = int(p)  # the number of trials given as a Python int
         other = draw(H.param_strategy(name))
-        return dict(loss=name, param=p, x=xs, m=ms, form=form, xdtype=xdtype, other_param=other)
+        return dict(loss=name, param=p, x=xs, m=ms, form=form, xdtype=xdtype, other_param=other, xlayout=xlayout)
 
     return s
 
@@ -171,10 +238,14 @@ def _handle_body(ctx, case):
         x, m = x.reshape(1, -1), m.reshape(1, -1)
     elif case["form"] == "scalar":
         x, m = x[:1].reshape(()), m[:1].reshape(())
-    xf = x  # float64 image of the data
-    x = H.typed(xf, case.get("xdtype"))
+    # the data as the caller holds it (dtype, memory layout) and its float64 image (single precision: the rounded values)
+    x, xf = H.as_presented(x, case.get("xdtype"))
     if x.dtype == np.bool_ and not np.all(np.isin(xf, [0, 1])):
         x = xf
+    s32 = H.SLACK32 if x.dtype == np.float32 else 1.0
+    if x.ndim:
+        x, m = H.present_array(x, case.get("xlayout")), H.present_array(m, case.get("xlayout"))
+        ctx.label("x-layout-" + _layout_label(x))
     x0, m0 = x.copy(), m.copy()
     ctx.label("form-" + case["form"], "x-dtype-" + str(x.dtype), "param-" + type(p).__name__)
     for xv in np.ravel(x):
@@ -195,10 +266,10 @@ def _handle_body(ctx, case):
         # the same data values held in float64 must give the same loss and gradient values
         with ctx.sut("handles-on-float64-image"):
             ff, gf = np.asarray(fh(xf, m)), np.asarray(gh(xf, m))
-        ctx.check(H.within(f, ff, 16 * EPS * H.scale_f(name, xf, m, p) + 1e-300), "loss-independent-of-data-dtype",
-                  f"{x.dtype}: {H.worst(f, ff, 16 * EPS * H.scale_f(name, xf, m, p))}")
-        ctx.check(H.within(g, gf, 16 * EPS * sg + 1e-300), "gradient-independent-of-data-dtype",
-                  f"{x.dtype}: {H.worst(g, gf, 16 * EPS * sg)}")
+        ctx.check(H.within(f, ff, 16 * EPS * s32 * H.scale_f(name, xf, m, p) + 1e-300), "loss-independent-of-data-dtype",
+                  f"{x.dtype}: {H.worst(f, ff, 16 * EPS * s32 * H.scale_f(name, xf, m, p))}")
+        ctx.check(H.within(g, gf, 16 * EPS * s32 * sg + 1e-300), "gradient-independent-of-data-dtype",
+                  f"{x.dtype}: {H.worst(g, gf, 16 * EPS * s32 * sg)}")
         ctx.require(ff.shape == x.shape and gf.shape == x.shape and bool(np.all(np.isfinite(ff)) and np.all(np.isfinite(gf))),
                     "handle-finite-on-domain", f"{ff} {gf}")
         f, g = ff, gf  # the derivative property is then judged on the float64 image
@@ -264,7 +335,43 @@ def _evaluate_case(draw, tier, holders):
     c["edit"] = draw(st.sampled_from([None, None, None, "data", "model", "both"]))
     c["edit_pos"] = draw(st.integers(0, 10**6))
     c["edit_val"] = draw(st.sampled_from([0.5, 1.0, 2.0, 3.0]))
+    # round 4: the same problem as another caller presents it - weights in other dtypes / read-only / a strided view, data
+    # in single precision, a sparse tensor whose subscripts came in another integer dtype, root logger at DEBUG
+    c["wform"] = draw(st.sampled_from([None, None, None, "readonly", "strided", "float32", "int32", "int16", "uint16", "uint64"]))
+    c["d32"] = draw(st.sampled_from([False, False, False, True]))
+    if c["loss"] != "huber" and draw(st.sampled_from([False, False, False, True])):
+        c["ddtype"] = draw(st.sampled_from(["int16", "uint64", "int8"]))  # (used where it holds every data value exactly)
+    c["spsubs"] = draw(st.sampled_from([None, None, "int32", "int32", "uint8", "uint16", "uint64", "int16"]))
+    c["env"] = draw(st.sampled_from(H.ENVS))
     return c
+
+
+def _present_problem(ctx, case, data, w_arr):
+    """(data, weights as handed over, float64 image of the weights, slack) in the presentation drawn in the case"""
+    s32 = 1.0
+    if isinstance(data, ttb.sptensor):
+        subs, vals = data.subs, data.vals
+        if case.get("spsubs") and subs.size:
+            subs = subs.astype(case["spsubs"])
+        if case.get("d32") and vals.dtype == np.float64:
+            vals = vals.astype(np.float32)
+        if subs is not data.subs or vals is not data.vals:
+            data = ttb.sptensor(subs.copy(), vals.copy(), data.shape)
+            ctx.label("sparse-data-subs-" + str(data.subs.dtype))
+        s32 = H.SLACK32 if data.vals.dtype == np.float32 else s32
+    elif case.get("d32") and data.data.dtype == np.float64:
+        data = ttb.tensor(data.data.astype(np.float32))
+        s32 = H.SLACK32 if data.data.dtype == np.float32 else s32
+    w_in = None
+    if w_arr is not None:
+        wf = case.get("wform")
+        if wf == "float32":
+            w_arr = w_arr.astype(np.float32)
+            s32 = H.SLACK32
+        elif wf in ("int32", "int16", "uint16", "uint64") and case.get("wkind") in ("mask", "sparse-mask"):
+            w_arr = H.typed(w_arr, wf).astype(wf, order="K") if np.all(w_arr == np.round(w_arr)) else w_arr
+        w_in = H.present_array(w_arr.copy(order="K"), wf)
+    return data, w_arr, w_in, s32
 
 
 def _labels(ctx, case, X):
@@ -343,20 +450,29 @@ def _evaluate_main(ctx, case):
     M = H.kruskal_c(Aw)
     dM = H.model_rounding(Aw) * (1 if unit else 2)
     X = H.data_array(case, M)
+    if case.get("d32") and name != "huber" and not case.get("large"):
+        X = X.astype(np.float32).astype(float)  # (the data a single-precision holder denotes)
     _labels(ctx, case, X)
     ctx.label("holder-" + case["holder"])
     _model_labels(ctx, case, model, lam)
     data = H.build_data(case, X)
-    _data_labels(ctx, data)
     w_arr = H.weight_array(case)
+    s32 = 1.0
+    w_in = None if w_arr is None else w_arr.copy(order="K")
+    # (Huber data is tied to the model values by the kink margin: never rounded to single precision)
+    data, w_arr, w_in, s32 = _present_problem(ctx, dict(case, d32=bool(case.get("d32")) and name != "huber" and not case.get("large")),
+                                              data, w_arr)
+    _data_labels(ctx, data)
     w = None if w_arr is None else w_arr.astype(float)
     if w_arr is not None:
         ctx.label("weights-" + str(w_arr.dtype) + ("-F" if w_arr.flags["F_CONTIGUOUS"] and not w_arr.flags["C_CONTIGUOUS"]
-                                                  else ("-C" if not w_arr.flags["F_CONTIGUOUS"] else "-CF")))
-    w_in = None if w_arr is None else w_arr.copy(order="K")
+                                                  else ("-C" if not w_arr.flags["F_CONTIGUOUS"] else "-CF")),
+                  "weights-handed-over-" + _layout_label(w_in))
+    ctx.label("env-" + str(case.get("env")), "single-precision-operand" if s32 != 1 else "double-precision-operands")
     data_before = ref.den(data).copy()
+    ctx.require(np.array_equal(data_before, X), "harness-data-holder-denotes-the-data")
 
-    with ctx.sut("fg.evaluate"):
+    with ctx.sut("fg.evaluate"), _env(case.get("env")):
         out = fg.evaluate(model, data, w_in, fh, gh)
     ctx.require(isinstance(out, tuple) and len(out) == 2, "evaluate-returns-F-and-G", type(out).__name__)
     F, G = out
@@ -374,7 +490,7 @@ def _evaluate_main(ctx, case):
     # --- objective = weighted sum of the loss over all entries
     Yf = pr.f if w is None else pr.f * w
     F_ref = float(np.sum(Yf))
-    tolF = _sum_tol(w, pr.f, pr.tol_f)
+    tolF = _sum_tol(w, pr.f, pr.tol_f) * s32
     ctx.check(abs(F - F_ref) <= tolF, "objective-is-weighted-sum-of-loss", f"{F!r} vs {F_ref!r} tol {tolF:.3g}")
     with ctx.sut("fg.evaluate-function-only"):
         F1 = fg.evaluate(model, data, None if w_arr is None else w_arr.copy(order="K"), fh, None)
@@ -387,12 +503,12 @@ def _evaluate_main(ctx, case):
     ctx.check(all(np.array_equal(a, b) for a, b in zip(A3, A)) and np.array_equal(lam3, lam) and np.array_equal(ref.den(data), data_before),
               "writing-into-returned-gradients-leaves-operands")
     G = G_kept
-    ctx.notes["operands"] = (model, data, w_arr, w, fh, gh, name, p, unit)  # (for the edit phase, run last)
+    ctx.notes["operands"] = (model, data, w_arr, w, fh, gh, name, p, unit, s32)  # (for the edit phase, run last)
     if not unit:
         # (the factor-matrix gradients are specified for unit-weight models only, see ASSUMPTIONS)
         return
     # --- gradients = MTTKRP of the weighted element-wise derivative
-    refs = _grad_refs(A, pr.g, pr.tol_g, w, N, R)
+    refs = [(Gk, tk * s32) for Gk, tk in _grad_refs(A, pr.g, pr.tol_g, w, N, R)]
     for k, (Gk, tk) in enumerate(refs):
         ctx.check(H.within(G[k], Gk, tk), "gradient-is-mttkrp-of-elementwise-derivative",
                   f"mode {k} of {case['shape']}: {H.worst(G[k], Gk, tk)}")
@@ -439,6 +555,7 @@ def _evaluate_main(ctx, case):
             want = float(np.sum(np.imag(Yc) if w is None else np.imag(Yc) * w) / H.CS_H)
             tol = float(np.sum(refs[k][1] * np.abs(V[k]))) + float(
                 np.sum(aw * (pr.tol_g + 64 * (X.size + N + R) * EPS * H.scale_g(name, X, M, p)) * dMabs))
+        tol = tol * s32
         ctx.check(abs(got - want) <= tol + 1e-300, "gradient-is-derivative-of-objective",
                   f"mode {k}: <G,V>={got!r} vs dF/ds={want!r} tol {tol:.3g}")
     # --- single-output calls agree with the joint call
@@ -457,7 +574,7 @@ def _evaluate_main(ctx, case):
             fg_setup.setup(H.objective(name), data, p)
 
 
-def _edit_phase(ctx, case, model, data, w_arr, w, fh, gh, name, p, unit):
+def _edit_phase(ctx, case, model, data, w_arr, w, fh, gh, name, p, unit, s32=1.0):
     """the operands are edited in place - data by item assignment, the model by ktensor.update - and the SAME objects
     are evaluated again: objective and gradients must be those of the operands as they stand now"""
     edit = case.get("edit")
@@ -506,11 +623,11 @@ def _edit_phase(ctx, case, model, data, w_arr, w, fh, gh, name, p, unit):
     F, G = out
     pr = H.PointwiseRef(name, p, fh, gh, X, M, dM)
     F_ref = float(np.sum(pr.f if w is None else pr.f * w))
-    tolF = _sum_tol(w, pr.f, pr.tol_f)
+    tolF = _sum_tol(w, pr.f, pr.tol_f) * s32
     ctx.check(abs(F - F_ref) <= tolF, "objective-follows-in-place-edit", f"{edit}: {F!r} vs {F_ref!r} tol {tolF:.3g}")
     if unit:
         for k, (Gk, tk) in enumerate(_grad_refs(A, pr.g, pr.tol_g, w, N, R)):
-            ctx.check(H.within(G[k], Gk, tk), "gradient-follows-in-place-edit", f"{edit}, mode {k}: {H.worst(G[k], Gk, tk)}")
+            ctx.check(H.within(G[k], Gk, tk * s32), "gradient-follows-in-place-edit", f"{edit}, mode {k}: {H.worst(G[k], Gk, tk)}")
 
 
 cell("C12/evaluate/dense", strategy=lambda tier: _evaluate_case(tier, ("dense",)), quick=500, thorough=10000,
@@ -518,7 +635,23 @@ cell("C12/evaluate/dense", strategy=lambda tier: _evaluate_case(tier, ("dense",)
 cell("C12/evaluate/sparse", strategy=lambda tier: _evaluate_case(tier, ("sparse",)), quick=300, thorough=6000,
      shards=(2, 8))(_evaluate_body)
 # a few large problems per run: 60000 cells, 1e4..3e4 stored nonzeros, mostly-missing weight arrays
-cell("C12/evaluate/large", strategy=lambda tier: H.large_problem(), quick=3, thorough=30, shards=(1, 4))(_evaluate_body)
+
+
+@st.composite
+def _large_case(draw, tier):
+    """a large problem, its sparse data built from subscripts in an integer dtype that holds every subscript (narrow
+    dtypes included: the linear index of a cell does not fit them), weights also read-only / strided / in other dtypes"""
+    c = draw(H.large_problem())
+    top = max(c["shape"]) - 1
+    fits = [d for d, cap in (("int8", 127), ("uint8", 255), ("int16", 32767), ("uint16", 65535), ("int32", 2**31 - 1),
+                             ("uint64", 2**63)) if top <= cap]
+    c["spsubs"] = draw(st.sampled_from([None] + fits[:2] * 2 + fits))
+    c["wform"] = draw(st.sampled_from([None, None, "readonly", "strided", "float32", "int32", "uint16"]))
+    c["env"] = draw(st.sampled_from(H.ENVS))
+    return c
+
+
+cell("C12/evaluate/large", strategy=_large_case, quick=5, thorough=40, shards=(1, 4))(_evaluate_body)
 
 
 # --------------------------------------------------------------------------
@@ -544,6 +677,9 @@ def _mttkrps_case(draw, tier):
     c["tdtype"] = draw(st.sampled_from(["float64", "float64", "int64", "int32", "uint8"])) if vk == "int" else "float64"
     c["udtype"] = (draw(st.sampled_from(["float64", "int64", "int32"]))
                    if vk == "int" and c["ukind"] != "ktensor" else "float64")
+    # round 4: factor matrices of a list / tuple as C-ordered, read-only or strided arrays; the mode as a NumPy integer
+    c["ulayout"] = draw(st.sampled_from([None, None, "C", "readonly", "strided"]))
+    c["nform"] = draw(st.sampled_from([None, None, "int64", "int32", "uint8", "intp"]))
     return c
 
 
@@ -560,10 +696,14 @@ def mttkrps(ctx, case):
     lam = np.array(case["uweights"], dtype=float)
     if case["ukind"] == "ktensor":
         U = ttb.ktensor([a.copy() for a in A], lam.copy())
-    elif case["ukind"] == "tuple":
-        U = tuple(H.typed(a, case.get("udtype")).copy() for a in A)
     else:
-        U = [H.typed(a, case.get("udtype")).copy() for a in A]
+        ul = case.get("ulayout")
+        U = [np.ascontiguousarray(H.typed(a, case.get("udtype"))) if ul == "C" else H.present_array(H.typed(a, case.get("udtype")).copy(), ul)
+             for a in A]
+        U0 = [u.copy() for u in U]
+        U = tuple(U) if case["ukind"] == "tuple" else U
+        ctx.label("factor-list-layout-" + str(ul))
+    ctx.label("mode-given-as-" + str(case.get("nform") or "int"))
     ctx.label("tensor-" + str(T.data.dtype), "factors-" + str((U.factor_matrices if case["ukind"] == "ktensor" else U)[0].dtype),
               "tensor-buffer-not-F-ordered" if gen.is_grown(T) else "tensor-buffer-F-ordered")
     unit = bool(np.all(lam == 1))
@@ -578,6 +718,8 @@ def mttkrps(ctx, case):
     if case["ukind"] == "ktensor":
         ctx.check(all(np.array_equal(a, b) for a, b in zip(U.factor_matrices, A)) and np.array_equal(U.weights, lam),
                   "mttkrps-leaves-factors")
+    else:
+        ctx.check(len(U) == N and all(np.array_equal(a, b) and a.dtype == b.dtype for a, b in zip(U, U0)), "mttkrps-leaves-factors")
     exact = ref.is_intvalued(Xa, lam, *A)
     absA = [np.abs(a) for a in A]
     for k in range(N):
@@ -585,7 +727,7 @@ def mttkrps(ctx, case):
         bound = H.mttkrp_ref(np.abs(Xa), absA, k) * np.abs(lam)[None, :]
         n = ref.prod(shape) // shape[k]
         with ctx.sut("tensor.mttkrp"):
-            one = T.mttkrp(U, k)
+            one = T.mttkrp(U, k if not case.get("nform") else np.dtype(case["nform"]).type(k))
         ctx.require(V[k].shape == (shape[k], r), "mttkrps-shape", f"mode {k}: {V[k].shape}")
         if exact:
             ok_def, ok_one = ref.same_exact(V[k], want), ref.same_exact(V[k], one)
@@ -614,8 +756,12 @@ def _estimate_full_case(draw, tier):
 @st.composite
 def _sample_forms(draw):
     """array forms of a sample: dtype of the values (when integer-valued), of the subscripts, of the sample weights"""
-    return dict(vdtype=draw(st.sampled_from(H.DATA_DTYPES[:-1])), sdtype=draw(st.sampled_from(["int64", "int64", "int32", "uint32"])),
-                swdtype=draw(st.sampled_from(["float64", "float64", "int64"])))
+    # (round 4: every integer dtype that holds the subscripts - the modes of these cells are shorter than 128 -, single
+    #  precision values / weights, memory layouts, process environment)
+    return dict(vdtype=draw(st.sampled_from(H.VAL_DTYPES)),
+                sdtype=draw(st.sampled_from(["int64", "int64", "int32", "uint32", "int16", "uint8", "uint16", "uint64", "int8"])),
+                swdtype=draw(st.sampled_from(H.SW_DTYPES)), slayout=draw(st.sampled_from(H.LAYOUTS)),
+                vlayout=draw(st.sampled_from([None, None, None, "strided", "readonly"])), env=draw(st.sampled_from(H.ENVS)))
 
 
 def _estimate_refs(case, model):
@@ -653,6 +799,7 @@ def estimate_all(ctx, case):
     """the sampled estimator on every subscript (any order) with unit weights equals the exact evaluation"""
     name, p = case["loss"], case["param"]
     fh, gh, lb = _setup(ctx, name, p)
+    case = H.expand_long(case)
     model = H.build_model(case)
     lam, A, unit, Aref = _estimate_refs(case, model)
     N, R = len(A), case["rank"]
@@ -662,34 +809,49 @@ def estimate_all(ctx, case):
     X = H.data_array(case, M)
     _labels(ctx, case, X)
     _model_labels(ctx, case, model, lam)
-    ctx.label("order-identity" if case["order"] == sorted(case["order"]) else "order-permuted")
-    allsubs = ref.all_subs_F(case["shape"])
-    subs = np.array([allsubs[i] for i in case["order"]], dtype=case.get("sdtype", "int64")).reshape(len(case["order"]), N)
-    vals = H.typed([X[tuple(s)] for s in subs], case.get("vdtype"))
-    wts = np.ones(len(subs), dtype=case.get("swdtype", "float64"))
-    ctx.label("vals-" + str(vals.dtype), "subs-" + str(subs.dtype), "sample-weights-" + str(wts.dtype))
+    ctx.label("order-identity" if case["order"] == "identity" or (case["order"] != "permuted" and case["order"] == sorted(case["order"]))
+              else "order-permuted")
+    if case.get("long"):
+        lin = np.arange(X.size) if case["order"] == "identity" else np.random.RandomState(case["seed"]).permutation(X.size)
+        isubs = np.array(np.unravel_index(lin, tuple(case["shape"]), order="F")).T.reshape(X.size, N)
+    else:
+        allsubs = ref.all_subs_F(case["shape"])
+        isubs = np.array([allsubs[i] for i in case["order"]], dtype=np.int64).reshape(len(case["order"]), N)
+    subs = isubs.astype(case.get("sdtype", "int64"))
+    vals = X[tuple(isubs.T)] if len(isubs) else np.zeros(0)
+    subs, vals, wts, _, valsf, _, s32 = _sample_arrays(case, subs, vals, np.ones(len(subs)), None)
+    if s32 != 1 and vals.dtype == np.float32:
+        X = gen.arr_F(case["shape"], [0.0] * X.size)  # (the data the single-precision sample denotes)
+        X[tuple(isubs.T)] = valsf
+    ctx.label("vals-" + str(vals.dtype), "subs-" + str(subs.dtype), "sample-weights-" + str(wts.dtype),
+              "subs-layout-" + _layout_label(subs), "env-" + str(case.get("env")))
+    if case.get("long"):
+        cap = H.NARROW_MAX.get(str(subs.dtype))
+        ctx.label("mode-length-x-rank-" + ("above" if cap is not None and max(n * R for n in case["shape"]) > cap + 1 else "within")
+                  + "-subscript-dtype")
     subs0, vals0, wts0 = subs.copy(), vals.copy(), wts.copy()
     ev_model = model.copy()  # (for the exact evaluation below)
-    with ctx.sut("fg_est.estimate"):
+    with ctx.sut("fg_est.estimate"), _env(case.get("env")):
         out = fg_est.estimate(model, subs, vals, wts, fh, gh)
     ctx.require(isinstance(out, tuple) and len(out) == 2, "estimate-returns-F-and-G")
     Fe, Ge = out
     ctx.require(np.ndim(Fe) == 0 and isinstance(Ge, list) and len(Ge) == N
                 and all(isinstance(g, np.ndarray) and g.shape == a.shape for g, a in zip(Ge, A)),
                 "estimate-result-types-and-shapes")
-    ctx.check(np.array_equal(subs, subs0) and np.array_equal(vals, vals0) and np.array_equal(wts, wts0)
-              and vals.dtype == vals0.dtype, "estimate-leaves-samples")
+    ctx.check(np.array_equal(subs, subs0) and subs.dtype == subs0.dtype and np.array_equal(vals, vals0) and np.array_equal(wts, wts0)
+              and vals.dtype == vals0.dtype and wts.dtype == wts0.dtype, "estimate-leaves-samples")
     Ag = _check_model_after(ctx, model, lam, A, unit, Aref)
     with ctx.sut("fg.evaluate"):
         Fx, Gx = fg.evaluate(ev_model, ttb.tensor(X.copy(order="F"), tuple(case["shape"])), None, fh, gh)
     pr = H.PointwiseRef(name, p, fh, gh, X, M, dM)
-    tolF = _sum_tol(None, pr.f, pr.tol_f)
+    tolF = _sum_tol(None, pr.f, pr.tol_f) * s32
     ctx.check(abs(float(Fe) - float(Fx)) <= 2 * tolF, "estimate-on-all-entries-equals-evaluate[F]",
               f"{Fe!r} vs {Fx!r} tol {2 * tolF:.3g}")
     ctx.check(abs(float(Fe) - float(np.sum(pr.f))) <= tolF, "estimate-objective-is-definition",
               f"{Fe!r} vs {float(np.sum(pr.f))!r} tol {tolF:.3g}")
     refs = _grad_refs(Ag, pr.g, pr.tol_g, None, N, R)
     for k, (Gk, tk) in enumerate(refs):
+        tk = tk * s32
         if unit:  # (the exact evaluation specifies gradients for unit-weight models only)
             ctx.check(H.within(Ge[k], Gx[k], 2 * tk), "estimate-on-all-entries-equals-evaluate[G]",
                       f"mode {k} of {case['shape']}: {H.worst(Ge[k], Gx[k], 2 * tk)}")
@@ -735,7 +897,7 @@ def _estimate_samples_case(draw, tier):
 @cell("C12/estimate/samples", strategy=_estimate_samples_case, quick=500, thorough=10000, shards=(2, 8))
 def estimate_samples(ctx, case):
     """arbitrary sample multisets, weights and correction range against a per-sample loop"""
-    case = H.expand_large_samples(case)
+    case = H.expand_long(H.expand_large_samples(case))
     name, p = case["loss"], case["param"]
     fh, gh, lb = _setup(ctx, name, p)
     model = H.build_model(case)
@@ -771,22 +933,29 @@ def estimate_samples(ctx, case):
     ctx.nt = N >= 3 and R >= 2 and ns >= 2 and len(set(case["vals"] or [0, 1])) >= 2
     want_f = case["outputs"] in ("both", "F")
     want_g = case["outputs"] in ("both", "G")
-    a_subs = subs.copy()
-    a_vals = H.typed(vals, case.get("vdtype"))
-    a_wts = H.typed(wts, case.get("swdtype")) if case.get("swdtype") == "int64" else wts.copy()
-    ctx.label("vals-" + str(a_vals.dtype), "subs-" + str(a_subs.dtype), "sample-weights-" + str(a_wts.dtype))
-    vals_in, wts_in = a_vals.copy(), a_wts.copy()
-    a_crng = None if crng is None else crng.copy()
-    with ctx.sut("fg_est.estimate"):
+    a_subs, a_vals, a_wts, a_crng, vals, wts, s32 = _sample_arrays(case, subs, vals, wts, crng)
+    ctx.label("vals-" + str(a_vals.dtype), "subs-" + str(a_subs.dtype), "sample-weights-" + str(a_wts.dtype),
+              "subs-layout-" + _layout_label(a_subs), "env-" + str(case.get("env")))
+    if a_crng is not None:
+        ctx.label("crng-" + str(a_crng.dtype))
+    if case.get("long"):
+        cap = H.NARROW_MAX.get(str(a_subs.dtype))
+        big = max(n * R for n in shape)
+        ctx.label("mode-length-x-rank-" + ("above" if cap is not None and big > cap + 1 else "within") + "-subscript-dtype",
+                  "rows-above-dtype-range-sampled" if cap is not None and ns and max(
+                      int(isubs[:, k].max()) * R + R - 1 for k in range(N)) > cap else "rows-within-dtype-range")
+    subs_in, vals_in, wts_in = a_subs.copy(), a_vals.copy(), a_wts.copy()
+    crng_in = None if a_crng is None else a_crng.copy()
+
+    def call(model_, subs_, vals_, wts_, crng_):
         if lc == "default":
-            if a_crng is None:
-                out = fg_est.estimate(model, a_subs, a_vals, a_wts, fh if want_f else None, gh if want_g else None)
-            else:
-                out = fg_est.estimate(model, a_subs, a_vals, a_wts, fh if want_f else None, gh if want_g else None,
-                                      crng=a_crng)
-        else:
-            out = fg_est.estimate(model, a_subs, a_vals, a_wts, fh if want_f else None, gh if want_g else None,
-                                  lc, a_crng)
+            if crng_ is None:
+                return fg_est.estimate(model_, subs_, vals_, wts_, fh if want_f else None, gh if want_g else None)
+            return fg_est.estimate(model_, subs_, vals_, wts_, fh if want_f else None, gh if want_g else None, crng=crng_)
+        return fg_est.estimate(model_, subs_, vals_, wts_, fh if want_f else None, gh if want_g else None, lc, crng_)
+
+    with ctx.sut("fg_est.estimate"), _env(case.get("env")):
+        out = call(model, a_subs, a_vals, a_wts, a_crng)
     if want_f and want_g:
         ctx.require(isinstance(out, tuple) and len(out) == 2, "estimate-returns-F-and-G")
         Fe, Ge = out
@@ -794,11 +963,26 @@ def estimate_samples(ctx, case):
         Fe, Ge = out, None
     else:
         Fe, Ge = None, out
-    ctx.check(np.array_equal(a_subs, subs) and np.array_equal(a_vals, vals_in) and a_vals.dtype == vals_in.dtype
-              and np.array_equal(a_wts, wts_in) and (crng is None or np.array_equal(a_crng, crng)), "estimate-leaves-samples")
+    ctx.check(np.array_equal(a_subs, subs_in) and a_subs.dtype == subs_in.dtype and np.array_equal(a_vals, vals_in)
+              and a_vals.dtype == vals_in.dtype and np.array_equal(a_wts, wts_in) and a_wts.dtype == wts_in.dtype
+              and (crng is None or (np.array_equal(a_crng, crng_in) and a_crng.dtype == crng_in.dtype)), "estimate-leaves-samples")
     Ag = _check_model_after(ctx, model, lam, A, unit, Aref)
     rows = rows_of(Ag)
     slack = 1 if unit else 4
+    # the same request in the plain presentation (int64 C-ordered subscripts, float64 values and weights, int64
+    # correction range, fresh model object, quiet environment): the answers agree to the property's bound
+    plain = None
+    if (a_subs.dtype != np.int64 or not a_subs.flags["C_CONTIGUOUS"] or a_vals.dtype != np.float64 or a_wts.dtype != np.float64
+            or case.get("env") or case.get("vlayout") or (a_crng is not None and (a_crng.dtype != np.int64 or case.get("clayout")))):
+        with ctx.sut("fg_est.estimate-plain-presentation"):
+            plain = call(H.build_model(case), isubs.astype(np.int64), vals.copy(), wts.copy(), None if crng is None else crng.astype(np.int64))
+        ctx.label("compared-with-plain-presentation")
+    if case.get("env"):
+        # the very same arguments in the quiet environment: bit for bit the same answer
+        with ctx.sut("fg_est.estimate-quiet-environment"):
+            quiet = call(H.build_model(case), a_subs, a_vals, a_wts, a_crng)
+        qs, os_ = _snapshot(list(quiet) if isinstance(quiet, tuple) else quiet), _snapshot(list(out) if isinstance(out, tuple) else out)
+        ctx.check(_same_snapshot(qs, os_), "estimate-independent-of-logging-level", str(case.get("env")))
     inc = np.zeros(ns, dtype=bool)
     if crng is not None and crng.size:
         inc[crng] = True
@@ -813,8 +997,13 @@ def estimate_samples(ctx, case):
             ty = ty + inc * (pz.tol_f + 4 * EPS * (np.abs(pf.f) + np.abs(pz.f)))
         F_ref = float(np.sum(wts * y))
         tolF = float(np.sum(wts * ty) + 64 * max(1, ns) * EPS * np.sum(wts * (np.abs(pf.f) + (inc * np.abs(pz.f) if inc.any() else 0)))) + 1e-300
+        tolF = tolF * s32
         ctx.check(abs(float(Fe) - F_ref) <= tolF, "estimate-objective-is-weighted-sample-sum",
                   f"{Fe!r} vs {F_ref!r} tol {tolF:.3g}")
+        if plain is not None:
+            Fp = plain[0] if want_g else plain
+            ctx.check(np.ndim(Fp) == 0 and abs(float(Fe) - float(Fp)) <= 2 * tolF, "estimate-objective-independent-of-presentation",
+                      f"{Fe!r} vs {Fp!r} tol {2 * tolF:.3g}")
     if want_g:
         ctx.require(isinstance(Ge, list) and len(Ge) == N and all(
             isinstance(g, np.ndarray) and g.shape == a.shape for g, a in zip(Ge, A)), "estimate-gradient-shapes",
@@ -836,8 +1025,200 @@ def estimate_samples(ctx, case):
             if ns:  # per-sample accumulation in sample order (unbuffered, repeats add up): no sparse matrix
                 np.add.at(Gk, isubs[:, k], (wts * y)[:, None] * Z)
                 np.add.at(Tk, isubs[:, k], (wts * (ty + slack * 64 * (ns + N) * EPS * ay))[:, None] * np.abs(Z))
+            Tk = Tk * s32
             ctx.check(H.within(Ge[k], Gk, Tk + 1e-300), "estimate-gradient-is-weighted-sample-sum",
                       f"mode {k} of {shape}: {H.worst(Ge[k], Gk, Tk)}")
+            if plain is not None:
+                Gp = plain[1] if want_f else plain
+                ctx.check(isinstance(Gp, list) and len(Gp) == N and H.within(Ge[k], Gp[k], 2 * Tk + 1e-300),
+                          "estimate-gradient-independent-of-presentation",
+                          f"mode {k} of {shape}: {H.worst(Ge[k], Gp[k], 2 * Tk) if isinstance(Gp, list) and len(Gp) == N else type(Gp).__name__}")
 
 
 cell("C12/estimate/large", strategy=lambda tier: H.large_samples(), quick=3, thorough=30, shards=(1, 4))(estimate_samples)
+
+
+# --------------------------------------------------------------------------
+# (e) round 4: the same request as another caller presents it
+# --------------------------------------------------------------------------
+
+
+@st.composite
+def _presentation(draw, ns):
+    """how the caller holds the sample: dtype and memory layout of the subscripts (dtype drawn by the caller of this
+    strategy), of the values / sample weights and of the correction range; process environment"""
+    return dict(slayout=draw(st.sampled_from(H.LAYOUTS)), vdtype=draw(st.sampled_from(H.VAL_DTYPES)),
+                swdtype=draw(st.sampled_from(H.SW_DTYPES)), vlayout=draw(st.sampled_from([None, None, None, "strided", "readonly"])),
+                cdtype=draw(st.sampled_from(["int64", "int64", "int32", "uint8", "int16", "uint64"])),
+                clayout=draw(st.sampled_from([None, None, "strided", "readonly"])), env=draw(st.sampled_from(H.ENVS)))
+
+
+@st.composite
+def _narrow_samples_case(draw, tier):
+    """sample sets of a model with one long mode, subscripts held in a dtype that holds every subscript but (mostly)
+    not mode length x rank; rows near the end of the long mode are sampled"""
+    name = draw(st.sampled_from(H.LOSS_NAMES))
+    sdtype = draw(st.sampled_from(H.SUB_DTYPES))
+    shape, rank, pos = draw(H.long_shape(sdtype))
+    L = shape[pos]
+    ns = draw(st.one_of(st.integers(1, 6), st.integers(1, 24)))
+    long_sub = st.one_of(st.integers(0, L - 1), st.integers((L - 1) // 2, L - 1), st.integers(max(0, L - 4), L - 1))
+    c = dict(loss=name, param=draw(H.param_strategy(name)), shape=shape, rank=rank, long=True, size="long-mode",
+             seed=draw(st.integers(0, 2**31 - 1)), sdtype=sdtype)
+    c["subs"] = [[draw(long_sub) if k == pos else draw(st.integers(0, n - 1)) for k, n in enumerate(shape)] for _ in range(ns)]
+    if name == "huber":
+        c["offsets"] = draw(st.lists(H.huber_ratio(), min_size=ns, max_size=ns))
+        c["vals"] = None
+    else:
+        c["vals"] = draw(st.lists(H.data_value(H.LOSSES[name]["data"], small=True), min_size=ns, max_size=ns))
+    wk = draw(st.sampled_from(["unit", "ints", "floats", "floats"]))
+    wv = {"unit": st.just(1.0), "ints": st.integers(0, 5).map(float), "floats": st.one_of(st.just(1.0), st.floats(0.1, 50.0))}[wk]
+    c["sweights"] = draw(st.lists(wv, min_size=ns, max_size=ns))
+    ck = draw(st.sampled_from(["none", "empty", "prefix"] if name != "huber" else ["none", "empty"]))
+    c["crng"] = None if ck == "none" else ([] if ck == "empty" else list(range(draw(st.integers(0, ns)))))
+    c["outputs"] = draw(st.sampled_from(["both", "both", "both", "F", "G"]))
+    c["lambda_check"] = draw(st.sampled_from(["default", True, False]))
+    c.update(draw(H.model_state(name, shape, rank, allow_weighted=c["lambda_check"] is not False)))
+    c["mscale"] = None
+    c.update(draw(_presentation(ns)))
+    return c
+
+
+cell("C12/estimate/narrow-subscripts", strategy=_narrow_samples_case, quick=60, thorough=600, shards=(1, 4))(estimate_samples)
+
+
+@st.composite
+def _narrow_full_case(draw, tier):
+    """every entry of a tensor with one long mode as the sample, subscripts in a dtype that holds every subscript but
+    (mostly) not mode length x rank (data and factors from a seed)"""
+    name = draw(st.sampled_from([n for n in H.LOSS_NAMES if n != "huber"]))
+    sdtype = draw(st.sampled_from(["int8", "uint8", "uint8"] * 3 + H.SUB_DTYPES))  # (the 16-bit problems have ~1e5 cells: fewer of them)
+    shape, rank, pos = draw(H.long_shape(sdtype, max_other=2))
+    c = dict(loss=name, param=draw(H.param_strategy(name)), shape=shape, rank=rank, long=True, full=True,
+             seed=draw(st.integers(0, 2**31 - 1)), sdtype=sdtype, order=draw(st.sampled_from(["identity", "permuted"])),
+             holder="dense", wkind="none", weights=None)
+    c.update(draw(H.model_state(name, shape, rank)))
+    c["mscale"] = None
+    pres = draw(_presentation(0))
+    c.update({k: pres[k] for k in ("slayout", "vdtype", "swdtype", "vlayout", "env")})
+    return c
+
+
+cell("C12/estimate/all-entries-narrow-subscripts", strategy=_narrow_full_case, quick=10, thorough=80, shards=(1, 4))(estimate_all)
+
+
+# --------------------------------------------------------------------------
+# (f) round 4: a rejected request leaves every operand (and the module) as it was
+# --------------------------------------------------------------------------
+
+REJECTS = ["evaluate-without-handles", "estimate-without-handles", "setup-without-parameter", "setup-data-outside-domain",
+           "mttkrp-wrong-factor-size"]
+
+
+@st.composite
+def _rejected_case(draw, tier):
+    c = draw(H.problem(tier, losses=[n for n in H.LOSS_NAMES if n != "huber"], max_order=4))
+    c["reject"] = draw(st.sampled_from(REJECTS))
+    c["pobj"] = draw(st.sampled_from(["huber", "negative_binomial", "beta"]))
+    c["pos"] = draw(st.integers(0, 10**6))
+    ns = draw(st.integers(1, 6))
+    c["sample_idx"] = draw(st.lists(st.integers(0, ref.prod(c["shape"]) - 1), min_size=ns, max_size=ns))
+    c["lambda_check"] = draw(st.sampled_from(["default", True, False]))
+    return c
+
+
+def _snapshot(obj):
+    """everything that parameterises a pyttb object / array, bit for bit"""
+    if isinstance(obj, ttb.ktensor):
+        return ("ktensor", [f.copy() for f in obj.factor_matrices], np.array(obj.weights, copy=True))
+    if isinstance(obj, ttb.sptensor):
+        return ("sptensor", obj.subs.copy(), obj.vals.copy(), tuple(obj.shape))
+    if isinstance(obj, ttb.tensor):
+        return ("tensor", obj.data.copy(order="K"), tuple(obj.shape))
+    if isinstance(obj, (list, tuple)):
+        return (type(obj).__name__, [_snapshot(o) for o in obj])
+    return ("array", None if obj is None else np.array(obj, copy=True))
+
+
+def _same_snapshot(a, b):
+    if isinstance(a, np.ndarray) or isinstance(b, np.ndarray):
+        return (isinstance(a, np.ndarray) and isinstance(b, np.ndarray) and a.dtype == b.dtype and a.shape == b.shape
+                and np.array_equal(a, b, equal_nan=True))
+    if isinstance(a, (list, tuple)) and isinstance(b, (list, tuple)):
+        return len(a) == len(b) and type(a) is type(b) and all(_same_snapshot(x, y) for x, y in zip(a, b))
+    return type(a) is type(b) and a == b
+
+
+@cell("C12/rejected-request", strategy=_rejected_case, quick=80, thorough=1200, shards=(1, 4))
+def rejected_request(ctx, case):
+    """valid evaluation, a request the documentation says is rejected, the same valid evaluation again: every operand is
+    bit for bit what it was and the second evaluation returns what the first returned"""
+    name, p, rj = case["loss"], case["param"], case["reject"]
+    fh, gh, lb = _setup(ctx, name, p)
+    model = H.build_model(case)
+    lam, A = H.read_model(model)
+    N = len(A)
+    Aw = A if np.all(lam == 1) else H.absorb(lam, A)
+    X = H.data_array(case, H.kruskal_c(Aw))
+    data = H.build_data(case, X)
+    w_arr = H.weight_array(case)
+    kind = H.LOSSES[name]["data"]
+    if rj == "setup-data-outside-domain" and kind == "real":
+        rj = "evaluate-without-handles"  # (every real tensor is Gaussian data)
+    ctx.label("reject-" + rj, "loss-" + name, "holder-" + case["holder"], "w-" + case["wkind"])
+    _model_labels(ctx, case, model, lam)
+    ctx.nt = N >= 3 and case["rank"] >= 2
+    with ctx.sut("fg.evaluate"):
+        F0, G0 = fg.evaluate(model, data, w_arr, fh, gh)
+    G0 = [np.array(g, copy=True) for g in G0]
+    xs, ms = np.array([0.0, 1.0, 1.0]), np.array([0.5, 0.25, 2.0])
+    with ctx.sut("function_handle"):
+        f_before, g_before = np.array(fh(xs, ms)), np.array(gh(xs, ms))
+    operands = [model, data, w_arr]
+    extra = []
+    if rj == "evaluate-without-handles":
+        call = lambda: fg.evaluate(model, data, w_arr, None, None)  # noqa: E731
+    elif rj == "estimate-without-handles":
+        allsubs = ref.all_subs_F(case["shape"])
+        subs = np.array([allsubs[i] for i in case["sample_idx"]], dtype=np.int64).reshape(len(case["sample_idx"]), N)
+        vals = np.array([X[tuple(s_)] for s_ in subs], dtype=float)
+        wts = np.ones(len(subs))
+        extra = [subs, vals, wts]
+        lc = case["lambda_check"]
+        call = ((lambda: fg_est.estimate(model, subs, vals, wts, None, None)) if lc == "default"
+                else (lambda: fg_est.estimate(model, subs, vals, wts, None, None, lc)))
+    elif rj == "setup-without-parameter":
+        call = lambda: fg_setup.setup(H.objective(case["pobj"]), data, None)  # noqa: E731
+    elif rj == "setup-data-outside-domain":
+        Xb = X.copy()
+        sub = tuple(int(i) for i in np.unravel_index(case["pos"] % X.size, X.shape, order="F"))
+        # (what setup documents it checks: binary / natural numbers / non-negative - the latter also for negative_binomial)
+        Xb[sub] = -1.0 if name == "negative_binomial" else {"binary": 2.0, "count": 0.5, "nonneg": -1.0}[kind]
+        bad = H.build_data(dict(case, ddtype="float64", dprov="ctor"), Xb)
+        extra = [bad]
+        call = lambda: fg_setup.setup(H.objective(name), bad, p)  # noqa: E731
+    else:
+        T = ttb.tensor(X.copy(order="F"), tuple(case["shape"]))
+        k = case["pos"] % N
+        j = (k + 1 + (case["pos"] // 7) % (N - 1)) % N  # another mode
+        U = [a.copy() for a in A]
+        U[j] = np.vstack((U[j], U[j][-1:, :]))  # one row too many
+        extra = [T, U]
+        call = lambda: T.mttkrp(U, k)  # noqa: E731
+    before = [_snapshot(o) for o in operands + extra]
+    ctx.raises(rj, call)
+    after = [_snapshot(o) for o in operands + extra]
+    names = ["model", "data", "weights"] + [f"argument-{i}" for i in range(len(extra))]
+    for nm, b, a in zip(names, before, after):
+        ctx.check(_same_snapshot(a, b), "rejected-request-leaves-" + ("operands" if nm.startswith("arg") else nm), f"{rj}: {nm}")
+    # the module is as it was: a new setup hands out the same functions, the old handles still work
+    fh2, gh2, _ = _setup(ctx, name, p)
+    with ctx.sut("function_handle"):
+        same = (np.array_equal(np.array(fh2(xs, ms)), f_before) and np.array_equal(np.array(gh2(xs, ms)), g_before)
+                and np.array_equal(np.array(fh(xs, ms)), f_before) and np.array_equal(np.array(gh(xs, ms)), g_before))
+    ctx.check(same, "handles-unchanged-after-rejected-request", rj)
+    with ctx.sut("fg.evaluate-after-rejected-request"):
+        out = fg.evaluate(model, data, w_arr, fh, gh)
+    ctx.require(isinstance(out, tuple) and len(out) == 2 and isinstance(out[1], list) and len(out[1]) == N, "evaluate-returns-F-and-G")
+    ctx.check(out[0] == F0 and all(isinstance(g, np.ndarray) and np.array_equal(g, g0) for g, g0 in zip(out[1], G0)),
+              "evaluation-after-rejected-request-as-before", rj)
